@@ -109,4 +109,65 @@ def load(repo=None, symbolic=True):
     r.EdgeLandmark = r.edge_landmark.EdgeLandmark
     r.Graph = r.graph.Graph
     r.hashes = source_hashes(repo)
+    snapshot_state(r)
     return r
+
+
+_MISSING = object()
+_LRU = type(__import__("functools").lru_cache()(lambda: None))
+
+
+def _holders():
+    """The repository's modules and the classes they define: the places where process-wide state can live."""
+    for name in MODULES:
+        mod = sys.modules.get(name)
+        if mod is None:
+            continue
+        yield mod
+        for v in list(vars(mod).values()):
+            if isinstance(v, type) and getattr(v, "__module__", None) == name:
+                yield v
+
+
+def snapshot_state(r):
+    """Remember the module- and class-level attributes of the repository as they are right after import."""
+    snap = []
+    for h in _holders():
+        d = dict(vars(h))
+        contents = {key: type(v)(v) for key, v in d.items() if type(v) in (dict, list, set) and not key.startswith("__")}
+        snap.append((h, d, contents))
+    r._state = snap
+
+
+def restore_state(r):
+    """Put module- and class-level state back to what it was right after import (every obligation, every control path and every
+    sampled point starts from a freshly imported library: a value cached at module or class level by one run must not reach the
+    next; WITHIN a run such state persists and is observed)."""
+    for h, d, contents in getattr(r, "_state", ()):
+        cur = vars(h)
+        for key in list(cur):
+            if key not in d and not key.startswith("__"):
+                try:
+                    delattr(h, key)
+                except (AttributeError, TypeError):
+                    pass
+        for key, v in d.items():
+            if key.startswith("__"):
+                continue
+            if cur.get(key, _MISSING) is not v:
+                try:
+                    setattr(h, key, v)
+                except (AttributeError, TypeError):
+                    pass
+            if isinstance(v, _LRU):
+                v.cache_clear()
+        for key, copy in contents.items():
+            v = d[key]
+            if isinstance(v, dict):
+                v.clear()
+                v.update(copy)
+            elif isinstance(v, list):
+                v[:] = copy
+            elif isinstance(v, set):
+                v.clear()
+                v.update(copy)
